@@ -4,7 +4,7 @@
    serde_json emits is a member of the declared TypeScript type.  Layer lemma for one definition
    (parametrised by what holds of its field types), then induction on serde's recursion depth. *)
 From TsRs Require Import Base.Str Base.Outcome Gen.Tables Model.Case Model.TsAst Model.Rust Model.Docs Model.Gen
-  Spec.TsFree Spec.TsSem Spec.Serde Spec.RtyInd Proofs.Gen_base_proofs Proofs.Sem_base_proofs Proofs.Sem_lib_proofs Model.Path Model.Merge Model.GenExport.
+  Spec.TsFree Spec.TsSem Spec.Serde Spec.RtyInd Proofs.Gen_base_proofs Proofs.Sem_base_proofs Proofs.Sem_lib_proofs Proofs.Sem_alt_proofs Model.Path Model.Merge Model.GenExport.
 From Coq Require Import List Lia Bool ZArith.
 Import ListNotations.
 Local Open Scope nat_scope.
@@ -86,6 +86,19 @@ Definition plain_field (n : nat) (opt : optional) (f : field) : Prop :=
   f_flatten f = false /\ f_type f = None /\ f_serde_ty f = f_ty f /\ pmono n (f_ty f) = true /\
   (f_inline f = true -> n = 0%nat) /\ opt_sound opt f.
 
+(* the content of a newtype variant of an internally tagged enum: a struct with named fields (at least one), without a tag of
+   its own, none of whose keys is the enum's tag *)
+Definition struct_content (tg : str) (t : rty) : Prop :=
+  match t with
+  | RNamed id _ =>
+      match lookup R id with
+      | Some (DStruct a (SNamed (f0 :: fs))) =>
+          c_tag a = None /\ ~ In tg (map (Gen.field_key (c_rename_all a)) (live (f0 :: fs)))
+      | _ => False
+      end
+  | _ => False
+  end.
+
 Lemma rsubst_nil : forall t, src_ty 0 t = true -> rsubst [] t = t.
 
 Proof.
@@ -157,6 +170,11 @@ Hypothesis Hty : forall b t v j a, pmono R n t = true -> (b = true -> n = 0%nat)
   st (rsubst sargs t) v = Some j -> tytext b t = Ok a -> ev a j.
 (* ... and an Option is written as its content or as null *)
 Hypothesis Hsto : forall u v j, st (ROption u) v = Some j -> (v = VNone /\ j = JNull) \/ exists w, v = VSome w /\ st u w = Some j.
+
+(* ... and a struct written as the content of an internally tagged newtype variant is ONE exact object whose keys exclude the tag *)
+Hypothesis Halt : forall tg t v l a, struct_content R tg t -> pmono R n t = true ->
+  st (rsubst sargs t) v = Some (JObj l) -> name_of R (rsubst gargs t) = Ok a ->
+  exists ks, ev_alt E (tsubst sn sf a) ks l /\ ~ In tg ks.
 
 Lemma is_flat_plain opt f : plain_field opt f -> is_flat f = false.
 Proof. intros (Hf & _). unfold is_flat. rewrite Hf. reflexivity. Qed.
@@ -390,7 +408,12 @@ Qed.
 Definition plain_variant (tg : tagging) (v : variant) : Prop :=
   v_type v = None /\ v_as v = None /\ v_untagged v = false /\ plain_shape NotOptional (v_shape v) /\
   match tg with
-  | Internal _ => match v_shape v with STuple _ => False | _ => True end   (* serde rejects tuple variants; newtype needs a map *)
+  | Internal t =>
+      match v_shape v with
+      | STuple [f] => f_inline f = false /\ struct_content R t (f_ty f)   (* a newtype needs a map: a struct with named fields *)
+      | STuple _ => False                                                (* serde rejects tuple variants *)
+      | _ => True
+      end
   | _ => True
   end.
 
@@ -452,9 +475,25 @@ Proof.
     + destruct (shape_ser st sargs ra (SNamed fs) vs) as [cj|] eqn:Hc; [|discriminate]. inversion Hs; subst.
       cbn in Hg. inversion Hg; subst. apply ev_single. eapply shape_member; [exact Hsh | exact Hkd | exact Hc | exact Hvt].
   - (* internally tagged *)
-    destruct (v_shape v) as [|fs|fs] eqn:Hshape; [| contradiction |].
+    destruct (v_shape v) as [|fs|fs] eqn:Hshape.
     + cbn in Hvt. inversion Hvt; subst. cbn [snd] in Hg. inversion Hs; inversion Hg; subst.
       apply ev_single. apply evs_lit.
+    + (* a newtype variant around a struct: `{ "tag": "Name" } & Struct` *)
+      destruct fs as [|f [|f2 fs']]; try contradiction. destruct Htg as [Hni Hct]. destruct Hsh as [[Hpf Hfo] Hsk].
+      destruct Hpf as (Hfl & Hty0 & Hsty & Hmono & Hinl0 & Hos).
+      cbn [is_named andb] in Hvt. cbn [shape_gen] in Hvt. rewrite Hsk in Hvt. unfold value_ty in Hvt. rewrite Hty0, Hni in Hvt.
+      apply bind_ok in Hvt as (a0 & Ha0 & Hvt). inversion Hvt; subst vt; clear Hvt. cbn [snd fst lone_field] in Hg. rewrite Hsk in Hg.
+      inversion Hg; subst x; clear Hg.
+      cbn [shape_ser] in Hs. destruct vs as [|v0 [|? ?]]; try discriminate. rewrite Hsty in Hs.
+      destruct (st (rsubst sargs (f_ty f)) v0) as [cj|] eqn:Hc; [|discriminate]. destruct cj as [| | | | | |l]; try discriminate.
+      inversion Hs; subst j; clear Hs.
+      destruct (Halt t (f_ty f) v0 l a0 Hct Hmono Hc Ha0) as (ks & Halt0 & Hnin).
+      unfold evs. cbn [tsubst map fst snd].
+      apply (ev_of_alt_inter E _ ([t] ++ ks) ((t, JStr name) :: l)).
+      change ((t, JStr name) :: l) with ([(t, JStr name)] ++ l).
+      apply ev_alt_inter2; [| exact Halt0 | intros k [<-|[]]; exact Hnin].
+      apply (ev_alt_obj E OVariant [(quoted_head t, TLit name)] [(t, JStr name)]).
+      pose proof (ev_single t (TLit name) (JStr name) (evs_lit name)) as Hsingle. unfold evs in Hsingle. cbn [tsubst map fst snd] in Hsingle. exact Hsingle.
     + cbn [is_named andb negb] in Hvt. cbn [is_named_shape] in Hs.
       cbn [shape_ser] in Hs. destruct (named_entries st sargs ra fs vs) as [entries|] eqn:He; [|discriminate]. cbn [option_map] in Hs.
       inversion Hs; subst. cbn [variant_keys_distinct keys_distinct app] in Hkd.
@@ -531,6 +570,35 @@ Proof.
     rewrite Hr. eapply evs_union; [exact Hx|].
     rewrite Forall_forall in Hd. destruct (Hd vr (nth_error_In _ _ Hn) Hskip) as [Hpv Hkd].
     eapply variant_member; eassumption.
+Qed.
+
+(* a struct with named fields (at least one) and no tag of its own: what serde writes is ONE exact object whose keys are the
+   field keys, and it inhabits the single alternative its declaration denotes *)
+Lemma struct_alt a f0 fs v j r :
+  plain_def (DStruct a (SNamed (f0 :: fs))) -> c_tag a = None ->
+  def_ser is_upper st (DStruct a (SNamed (f0 :: fs))) sargs v = Some j ->
+  def_body is_upper is_alnum is_numeric R inl flt (DStruct a (SNamed (f0 :: fs))) gargs = Ok r ->
+  exists es, j = JObj es /\ ev_alt E (tsubst sn sf (fst r)) (map (Gen.field_key (c_rename_all a)) (live (f0 :: fs))) es.
+Proof.
+  intros (Hdty & Has & Hps & Hd) Htag Hs Hg. unfold def_body in Hg. cbn [attrs_of] in *. rewrite Hdty, Has, Htag in Hg.
+  destruct Hd as (Hsh & Hkd). rewrite Htag in Hkd. cbn [plain_shape keys_distinct app] in Hsh, Hkd.
+  destruct v; try discriminate. cbn [def_ser] in Hs. rewrite Htag in Hs. cbn [shape_ser] in Hs.
+  destruct (named_entries st sargs (c_rename_all a) (f0 :: fs) fs0) as [entries|] eqn:He; [|discriminate]. inversion Hs; subst j; clear Hs.
+  exists entries. split; [reflexivity|].
+  cbn [shape_gen] in Hg.
+  rewrite (filter_all (fun fl => negb (is_flat fl)) (live (f0 :: fs))) in Hg
+    by (intros x Hx; rewrite (is_flat_plain (c_optional_fields a) x); [reflexivity | pose proof (live_plain _ _ Hsh) as Hl; rewrite Forall_forall in Hl; auto]).
+  rewrite (filter_none is_flat (live (f0 :: fs))) in Hg
+    by (intros x Hx; apply (is_flat_plain (c_optional_fields a)); pose proof (live_plain _ _ Hsh) as Hl; rewrite Forall_forall in Hl; auto).
+  apply bind_ok in Hg as (props & Hp & Hg). cbn [omap_list bind] in Hg.
+  assert (Hr : r = (TMerged (TObj OStruct props), Some (TMerged (TObj OStruct props)))) by (destruct props; inversion Hg; reflexivity).
+  subst r. cbn [fst tsubst].
+  destruct (named_fields_rel (c_rename_all a) (c_optional_fields a) (f0 :: fs) fs0 entries props Hsh He Hp) as (_ & _ & C).
+  rewrite <- C. replace (map (fun p => p_key (fst p)) props) with (pkeys (map (fun p => (fst p, tsubst sn sf (snd p))) props))
+    by (unfold pkeys; rewrite map_map; reflexivity).
+  apply ev_alt_merged. apply ev_alt_obj.
+  pose proof (named_object (c_rename_all a) (c_optional_fields a) (f0 :: fs) fs0 entries props [] [] Hsh He Hp Hkd (Forall2_nil _)) as Hobj.
+  unfold evs in Hobj. cbn [app tsubst] in Hobj. exact Hobj.
 Qed.
 
 End Layer.
@@ -822,10 +890,34 @@ Definition keys_distinctb (ra : option rule) (extra : list str) (s : shape) : bo
 Lemma keys_distinctb_ok ra extra s : keys_distinctb ra extra s = true -> keys_distinct ra extra s.
 Proof. destruct s; cbn; intros H; try exact I. apply nodupb_NoDup. exact H. Qed.
 
+Definition struct_contentb (tg : str) (t : rty) : bool :=
+  match t with
+  | RNamed id _ =>
+      match lookup R id with
+      | Some (DStruct a (SNamed (f0 :: fs))) =>
+          is_none (c_tag a) && negb (existsb (str_eqb tg) (map (Gen.field_key (c_rename_all a)) (live (f0 :: fs))))
+      | _ => false
+      end
+  | _ => false
+  end.
+
+Lemma struct_contentb_ok tg t : struct_contentb tg t = true -> struct_content R tg t.
+Proof.
+  destruct t as [| | | | | | | | |id args| |]; cbn [struct_contentb struct_content]; try discriminate.
+  destruct (lookup R id) as [[a [| |[|f0 fs]]|]|]; try discriminate. intros H. apply andb_true_iff in H as [H1 H2].
+  split; [apply is_none_eq; exact H1|]. intros Hin. apply negb_true_iff in H2.
+  rewrite (existsb_in (str_eqb tg) tg _ Hin (str_eqb_refl' tg)) in H2. discriminate.
+Qed.
+
 Definition plain_variantb (n : nat) (tg : tagging) (v : variant) : bool :=
   is_none (v_type v) && is_none (v_as v) && negb (v_untagged v) && plain_shapeb n NotOptional (v_shape v) &&
   match tg with
-  | Internal _ => match v_shape v with STuple _ => false | _ => true end
+  | Internal t =>
+      match v_shape v with
+      | STuple [f] => negb (f_inline f) && struct_contentb t (f_ty f)
+      | STuple _ => false
+      | _ => true
+      end
   | _ => true
   end.
 
@@ -835,7 +927,9 @@ Proof.
   repeat match type of H with (_ && _) = true => let H' := fresh "H" in apply andb_true_iff in H as [H H'] end.
   repeat split; try (apply is_none_eq; assumption); try (apply negb_true_iff; assumption).
   - apply plain_shapeb_ok; assumption.
-  - destruct tg; try exact I. destruct (v_shape v); try exact I. discriminate.
+  - destruct tg; try exact I. destruct (v_shape v) as [|[|f [|f2 fs]]|]; try exact I; try discriminate.
+    match goal with Hx : (negb (f_inline f) && struct_contentb _ (f_ty f))%bool = true |- _ => apply andb_true_iff in Hx as [Hx1 Hx2] end.
+    split; [apply negb_true_iff; exact Hx1 | apply struct_contentb_ok; exact Hx2].
 Qed.
 
 Definition variant_keys_distinctb (tg : tagging) (ra : option rule) (s : shape) : bool :=
@@ -1079,9 +1173,16 @@ Lemma def_layer : forall m,
      map fst ps = map fst (c_params (attrs_of d)) ->
      ev (tsubst (bind_params ps l) (bind_params ps l) (fst r)) j) /\
   (forall g d id args v j r, lookup R id = Some d -> length args = nparams d -> forallb mono_ty args = true ->
-     sdef is_upper R m d args v = Some j -> gen g d args = Ok r -> ev (fst r) j).
+     sdef is_upper R m d args v = Some j -> gen g d args = Ok r -> ev (fst r) j) /\
+  (* (C) a struct with named fields and no tag of its own is written as one exact object over its field keys *)
+  (forall g id args v j r l ps a f0 fs, lookup R id = Some (DStruct a (SNamed (f0 :: fs))) -> c_tag a = None ->
+     length args = length (c_params a) -> forallb mono_ty args = true ->
+     sdef is_upper R m (DStruct a (SNamed (f0 :: fs))) args v = Some j -> gen g (DStruct a (SNamed (f0 :: fs))) (dummies a) = Ok r ->
+     omap_list (name_of R) args = Ok l -> map fst ps = map fst (c_params a) ->
+     exists es, j = JObj es /\
+       ev_alt env_of (tsubst (bind_params ps l) (bind_params ps l) (fst r)) (map (Gen.field_key (c_rename_all a)) (live (f0 :: fs))) es).
 Proof.
-  induction m as [|m [IHA IHB]]; [split; intros; cbn in *; discriminate|].
+  induction m as [|m (IHA & IHB & IHC)]; [repeat split; intros; cbn in *; discriminate|].
   (* references to definitions: through the declaration of the environment *)
   assert (Href : forall id2 d2 args2 l2 v2 j2, lookup R id2 = Some d2 -> length args2 = length (c_params (attrs_of d2)) ->
             forallb mono_ty args2 = true -> sdef is_upper R m d2 args2 v2 = Some j2 -> omap_list (name_of R) args2 = Ok l2 ->
@@ -1096,34 +1197,76 @@ Proof.
   assert (Hopt : forall u v0 j0, ser_ty R (sdef is_upper R m) (ROption u) v0 = Some j0 ->
             (v0 = VNone /\ j0 = JNull) \/ exists w, v0 = VSome w /\ ser_ty R (sdef is_upper R m) u w = Some j0).
   { intros u v0 j0 H0. cbn [Serde.ser_ty] in H0. destruct v0; try discriminate; [left; inversion H0; split; reflexivity | right; eexists; split; [reflexivity | exact H0]]. }
-  split.
+  (* a reference to a struct that may be the content of an internally tagged newtype variant *)
+  assert (Href_alt : forall tg t0 v0 l0 a0, struct_content R tg t0 -> mono_ty t0 = true ->
+            ser_ty R (sdef is_upper R m) t0 v0 = Some (JObj l0) -> name_of R t0 = Ok a0 ->
+            exists ks, ev_alt env_of a0 ks l0 /\ ~ In tg ks).
+  { intros tg t0 v0 l0 a0 Hct Hm0 Hs0 Ha0. destruct t0 as [| | | | | | | | |id2 args2| |]; try contradiction.
+    cbn [struct_content] in Hct. unfold Sem_derive_proofs.mono_ty in Hm0. cbn [pmono] in Hm0. cbn [Serde.ser_ty] in Hs0. cbn [Gen.name_of] in Ha0.
+    destruct (lookup R id2) as [d2|] eqn:Hlk2; [|contradiction].
+    destruct d2 as [a2 s2|]; [|contradiction]. destruct s2 as [| |fs2]; try contradiction. destruct fs2 as [|f0 fs2]; [contradiction|].
+    destruct Hct as [Htag2 Hnin]. apply andb_true_iff in Hm0 as [Hlen2 Hargs2]. apply Nat.eqb_eq in Hlen2.
+    apply bind_ok in Ha0 as (l2 & Hl2 & Ha0). inversion Ha0; subst a0; clear Ha0.
+    destruct (env_facts _ _ Hlk2) as (_ & _ & dc & Hdl & Hdc).
+    destruct (plain_decl _ dc Hdc) as (r2 & Hr2 & _ & Hps2 & Hbody).
+    destruct (IHC gf id2 args2 v0 (JObj l0) r2 l2 (d_params dc) a2 f0 fs2 Hlk2 Htag2 Hlen2 Hargs2 Hs0 Hr2 Hl2 Hps2) as (es & Hes & Halt0).
+    inversion Hes; subst es. exists (map (Gen.field_key (c_rename_all a2)) (live (f0 :: fs2))). split; [|exact Hnin].
+    eapply ev_alt_ref; [exact Hdl|]. rewrite Hbody. exact Halt0. }
+  assert (Hsc_subst : forall tg t0 args0, struct_content R tg t0 -> struct_content R tg (rsubst args0 t0)).
+  { intros tg t0 args0 H0. destruct t0; try contradiction. exact H0. }
+  split; [|split].
   - intros g d id args v j r l ps Hlk Hlen Hargs Hs Hr Hl Hps.
     destruct (env_facts _ _ Hlk) as (Hpd & Hnp & _).
     destruct g as [|g']; [cbn in Hr; discriminate|]. cbn [Gen.gen] in Hr. cbn [sdef] in Hs.
     eapply (def_member is_upper is_alnum is_numeric R env_of (ser_ty R (sdef is_upper R m)) (lib_inline R (gen g')) (lib_flat R (gen g'))
-              (nparams d) args (dummies (attrs_of d)) (bind_params ps l) (bind_params ps l)); [|exact Hopt|exact Hpd | exact Hs | exact Hr].
-    intros b t0 v0 j0 a0 Hpm Hin0 Hs0 Ha0. unfold evs. unfold tytext in Ha0.
-    assert (Hmono : mono_ty (rsubst args t0) = true).
-    { apply (pmono_subst R (nparams d) args); [apply Forall_forall; rewrite forallb_forall in Hargs; exact Hargs | exact Hlen | exact Hpm]. }
-    destruct b.
-    + (* inline: only in definitions without parameters *)
-      specialize (Hin0 eq_refl). unfold nparams in Hin0, Hlen. rewrite Hin0 in Hlen.
-      destruct args; [|discriminate]. assert (Hc : c_params (attrs_of d) = []) by (destruct (c_params (attrs_of d)); [reflexivity | discriminate]).
-      unfold dummies in Ha0. rewrite Hc in Ha0, Hps. cbn [map] in Ha0, Hps. destruct ps; [|discriminate]. cbn in Hl. inversion Hl; subst l.
-      cbn [bind_params]. rewrite tsubst_none. eapply Hinl; [exact Hmono | exact Hs0 | exact Ha0].
-    + rewrite dummies_eq in Ha0.
-      eapply lib_ev; [exact Href | exact Hmono | exact Hs0|].
+              (nparams d) args (dummies (attrs_of d)) (bind_params ps l) (bind_params ps l)); [|exact Hopt| |exact Hpd | exact Hs | exact Hr].
+    + intros b t0 v0 j0 a0 Hpm Hin0 Hs0 Ha0. unfold evs. unfold tytext in Ha0.
+      assert (Hmono : mono_ty (rsubst args t0) = true).
+      { apply (pmono_subst R (nparams d) args); [apply Forall_forall; rewrite forallb_forall in Hargs; exact Hargs | exact Hlen | exact Hpm]. }
+      destruct b.
+      * (* inline: only in definitions without parameters *)
+        specialize (Hin0 eq_refl). unfold nparams in Hin0, Hlen. rewrite Hin0 in Hlen.
+        destruct args; [|discriminate]. assert (Hc : c_params (attrs_of d) = []) by (destruct (c_params (attrs_of d)); [reflexivity | discriminate]).
+        unfold dummies in Ha0. rewrite Hc in Ha0, Hps. cbn [map] in Ha0, Hps. destruct ps; [|discriminate]. cbn in Hl. inversion Hl; subst l.
+        cbn [bind_params]. rewrite tsubst_none. eapply Hinl; [exact Hmono | exact Hs0 | exact Ha0].
+      * rewrite dummies_eq in Ha0.
+        eapply lib_ev; [exact Href | exact Hmono | exact Hs0|].
+        exact (name_of_tsubst R (nparams d) (map fst (c_params (attrs_of d))) args l ps Hnp Hps (map_length _ _) Hl Hlen t0 a0 Hpm Ha0).
+    + intros tg t0 v0 l0 a0 Hct Hpm Hs0 Ha0. rewrite dummies_eq in Ha0.
+      assert (Hmono : mono_ty (rsubst args t0) = true).
+      { apply (pmono_subst R (nparams d) args); [apply Forall_forall; rewrite forallb_forall in Hargs; exact Hargs | exact Hlen | exact Hpm]. }
+      eapply (Href_alt tg (rsubst args t0) v0 l0); [apply Hsc_subst; exact Hct | exact Hmono | exact Hs0|].
       exact (name_of_tsubst R (nparams d) (map fst (c_params (attrs_of d))) args l ps Hnp Hps (map_length _ _) Hl Hlen t0 a0 Hpm Ha0).
   - intros g d id args v j r Hlk Hlen Hargs Hs Hr.
     destruct (env_facts _ _ Hlk) as (Hpd & Hnp & _).
     destruct g as [|g']; [cbn in Hr; discriminate|]. cbn [Gen.gen] in Hr. cbn [sdef] in Hs.
     rewrite <- (tsubst_none (fst r)).
     eapply (def_member is_upper is_alnum is_numeric R env_of (ser_ty R (sdef is_upper R m)) (lib_inline R (gen g')) (lib_flat R (gen g'))
-              (nparams d) args args (fun _ => None) (fun _ => None)); [|exact Hopt|exact Hpd | exact Hs | exact Hr].
-    intros b t0 v0 j0 a0 Hpm Hin0 Hs0 Ha0. unfold evs. rewrite tsubst_none. unfold tytext in Ha0.
+              (nparams d) args args (fun _ => None) (fun _ => None)); [|exact Hopt| |exact Hpd | exact Hs | exact Hr].
+    + intros b t0 v0 j0 a0 Hpm Hin0 Hs0 Ha0. unfold evs. rewrite tsubst_none. unfold tytext in Ha0.
+      assert (Hmono : mono_ty (rsubst args t0) = true).
+      { apply (pmono_subst R (nparams d) args); [apply Forall_forall; rewrite forallb_forall in Hargs; exact Hargs | exact Hlen | exact Hpm]. }
+      destruct b; [eapply Hinl | eapply lib_ev; [exact Href|..]]; eassumption.
+    + intros tg t0 v0 l0 a0 Hct Hpm Hs0 Ha0. rewrite tsubst_none.
+      assert (Hmono : mono_ty (rsubst args t0) = true).
+      { apply (pmono_subst R (nparams d) args); [apply Forall_forall; rewrite forallb_forall in Hargs; exact Hargs | exact Hlen | exact Hpm]. }
+      eapply (Href_alt tg (rsubst args t0) v0 l0); [apply Hsc_subst; exact Hct | exact Hmono | exact Hs0 | exact Ha0].
+  - intros g id args v j r l ps a f0 fs Hlk Htag Hlen Hargs Hs Hr Hl Hps.
+    destruct (env_facts _ _ Hlk) as (Hpd & Hnp & _). cbn [attrs_of] in *.
+    destruct g as [|g']; [cbn in Hr; discriminate|]. cbn [Gen.gen] in Hr. cbn [sdef] in Hs.
+    eapply (struct_alt is_upper is_alnum is_numeric R env_of (ser_ty R (sdef is_upper R m)) (lib_inline R (gen g')) (lib_flat R (gen g'))
+              (length (c_params a)) args (dummies a) (bind_params ps l) (bind_params ps l)); [|exact Hopt|exact Hpd | exact Htag | exact Hs | exact Hr].
+    intros b t0 v0 j0 a0 Hpm Hin0 Hs0 Ha0. unfold evs. unfold tytext in Ha0.
     assert (Hmono : mono_ty (rsubst args t0) = true).
-    { apply (pmono_subst R (nparams d) args); [apply Forall_forall; rewrite forallb_forall in Hargs; exact Hargs | exact Hlen | exact Hpm]. }
-    destruct b; [eapply Hinl | eapply lib_ev; [exact Href|..]]; eassumption.
+    { apply (pmono_subst R (length (c_params a)) args); [apply Forall_forall; rewrite forallb_forall in Hargs; exact Hargs | exact Hlen | exact Hpm]. }
+    destruct b.
+    + specialize (Hin0 eq_refl). rewrite Hin0 in Hlen.
+      destruct args; [|discriminate]. assert (Hc : c_params a = []) by (destruct (c_params a); [reflexivity | discriminate]).
+      unfold dummies in Ha0. rewrite Hc in Ha0, Hps. cbn [map] in Ha0, Hps. destruct ps; [|discriminate]. cbn in Hl. inversion Hl; subst l.
+      cbn [bind_params]. rewrite tsubst_none. eapply Hinl; [exact Hmono | exact Hs0 | exact Ha0].
+    + change (dummies a) with (dummies (attrs_of (DStruct a (SNamed (f0 :: fs))))) in Ha0. rewrite dummies_eq in Ha0. cbn [attrs_of] in Ha0.
+      eapply lib_ev; [exact Href | exact Hmono | exact Hs0|].
+      exact (name_of_tsubst R (length (c_params a)) (map fst (c_params a)) args l ps Hnp Hps (map_length _ _) Hl Hlen t0 a0 Hpm Ha0).
 Qed.
 
 Theorem derive_layer_member : forall m t v j a,
